@@ -1,12 +1,120 @@
-"""C09 — per-container contracts (see props/containers_common.py and gen/containers.py)."""
+"""C09 — computed minimum/maximum sizes bound every valid encoding.
+(a) Verus: one interval obligation per generated world message, over the wowm length formula, against the guard literals
+    compiled into its decoder (unbounded in array counts and string lengths).
+(c) Kani: clause `C09:canonical-encoding-rejected-by-size-guard` of the per-container contracts (loop-free messages)."""
+import os
+import re
+from lib import vlib
+from spec import wowm
+from gen import containers, lengths
 from props import containers_common as cc
 
 PROP = "C09"
 
+PRELUDE = """// generated each run by props/c09.py + gen/lengths.py
+use vstd::prelude::*;
+verus! {
+// The only non-local fact the per-container obligations rely on: a sequence of `c` element lengths, each within
+// [lo, hi], sums to a total within [c*lo, c*hi] (used as `c*lo <= total <= c*hi` in their preconditions).
+pub open spec fn sum(s: Seq<int>) -> int
+    decreases s.len()
+{
+    if s.len() == 0 { 0 } else { s[0] + sum(s.drop_first()) }
+}
+pub proof fn lemma_sum_bounds(s: Seq<int>, lo: int, hi: int)
+    requires forall|i: int| 0 <= i < s.len() ==> lo <= #[trigger] s[i] <= hi,
+    ensures s.len() * lo <= sum(s) <= s.len() * hi,
+    decreases s.len()
+{
+    if s.len() > 0 {
+        let t = s.drop_first();
+        assert forall|i: int| 0 <= i < t.len() implies lo <= #[trigger] t[i] <= hi by { assert(t[i] == s[i + 1]); }
+        lemma_sum_bounds(t, lo, hi);
+        assert(s.len() * lo == t.len() * lo + lo) by(nonlinear_arith) requires s.len() == t.len() + 1;
+        assert(s.len() * hi == t.len() * hi + hi) by(nonlinear_arith) requires s.len() == t.len() + 1;
+    }
+}
+"""
+
+
+def build_verus(repo):
+    corpus = wowm.Corpus(repo)
+    items = containers.scan_messages(repo)
+    consts = lengths.read_language_constants(vlib.read(os.path.join(repo, "wow_message_parser/src/main.rs")))
+    cbuf = lengths.client_buffer_limit(vlib.read(os.path.join(repo, "wow_message_parser/src/rust_printer/structs/print_common_impls/mod.rs")))
+    consts["CLIENT_MESSAGE_BUFFER"] = cbuf
+    out = [PRELUDE]
+    specs = {}
+    skipped = {}
+    struct_iv_by_ver = {}
+    n = 0
+    for it in items:
+        ver = it["versions"][0]
+        d = corpus.by_loc.get((it["wowm_file"], it["wowm_line"]))
+        if d is None or d["obj"] != "container":
+            continue
+        name = re.sub(r"[^a-z0-9_]", "_", it["modpath"].replace("crate::world::", "").replace("::", "_").lower())
+        try:
+            if any(t == "compressed" for t, _ in d["tags"]):
+                raise lengths.Skip("compressed message")
+            guard = lengths.guard_of(it["src"])
+            if guard is None:
+                raise vlib.AnchorLost("size guard of %s not found in %s" % (it["rust_name"], it["rel"]))
+            res = containers.Resolver(corpus, ver)
+            siv = struct_iv_by_ver.setdefault(ver, {})
+            dirs = {"cmsg": ["c"], "smsg": ["s"], "msg": ["c", "s"]}[d["kind"]]
+            frame = max(min(lengths.FRAME[(v, dd)], cbuf) if (dd == "c" and d["kind"] == "cmsg") else lengths.FRAME[(v, dd)]
+                        for v in it["versions"] for dd in dirs)
+            code, iv = lengths.obligation(it, d, res, consts, siv, guard, frame, name)
+        except (lengths.Skip, containers.Unsupported) as e:
+            skipped.setdefault(re.sub(r"\d+", "N", str(e)), []).append(it["rust_name"])
+            continue
+        out.append(code)
+        specs["c09_" + name] = dict(obligation="C09:size-guard-bounds-every-encoding", functions=[it["modpath"] + "::" + it["rust_name"] + "::read_inner (size guard)"])
+        n += 1
+    # struct intervals used as callee contracts
+    for ver, siv in struct_iv_by_ver.items():
+        res = containers.Resolver(corpus, ver)
+        for key, (a, b, o) in list(siv.items()):
+            g = lengths.LenGen(res, consts, siv)
+            e, lo, hi = g.members(o["members"], {})
+            nm = "struct_%s_%s_%d" % (ver, o["name"].lower(), o["line"])
+            params = ", ".join("%s: %s" % p for p in g.params) or "unit: int"
+            args = ", ".join(p for p, _ in g.params) or "0"
+            out.append("pub open spec fn len_%s(%s) -> int {\n    %s\n}" % (nm, params, e))
+            req = ",\n        ".join(g.req) if g.req else "true"
+            out.append("pub proof fn c09_%s(%s)\n    requires\n        %s,\n    ensures\n        %d <= len_%s(%s) <= %d,\n{\n}\n" % (nm, params, req, a, nm, args, b))
+            specs["c09_" + nm] = dict(obligation="C09:struct-interval-used-by-array-obligations", functions=["(wowm struct %s)" % o["name"]])
+    out.append("pub proof fn canary_c09(a: int, b: int)\n    requires 0 <= a <= 5, 0 <= b <= 9,\n    ensures a + b <= 13,\n{\n}\n")
+    specs["lemma_sum_bounds"] = dict(obligation="C09:sum-of-bounded-element-lengths")
+    specs["canary_c09"] = dict(canary=True)
+    out.append("} // verus!\nfn main() {}\n")
+    return "\n".join(out), specs, dict(obligations=n, skipped={k: len(v) for k, v in skipped.items()},
+                                       skipped_examples={k: v[:4] for k, v in skipped.items()}, language_constants=consts)
+
+
+def verus_part(run, scratch):
+    text, specs, meta = build_verus(vlib.REPO)
+    path = os.path.join(scratch, "c09_sizes.rs")
+    vlib.write(path, text)
+    vlib.write(os.path.join(vlib.VERIF, "logs", "c09_sizes.rs"), text)
+    vr = vlib.verus_run(path, timeout=1800, extra=["--num-threads", "8"])
+    run.absorb_verus(vr, path, specs, text)
+    run.extra["interval_obligations"] = meta
+    run.assumptions += ["string wire sizes are limited by the published language constants read from wow_message_parser/src/main.rs this run: %r" % meta["language_constants"],
+                        "array counts range over the full range of their length-field type; messages longer than the frame limit of their direction/expansion are not encodings",
+                        "messages containing UpdateMask, MonsterMoveSplines, masks, achievement arrays, AddonArray or compressed parts have no interval obligation (listed under interval_obligations.skipped)"]
+
 
 def check(tier, seed):
-    return cc.run_check(PROP, tier, seed)
+    return cc.run_check(PROP, tier, seed, post=verus_part)
 
 
 def replay(path):
+    import json
+    j = json.load(open(path))
+    if j.get("engine") == "verus":
+        print("replay: Verus obligation %s (contract %s); verifier output:\n%s" % (j.get("obligation"), j.get("contract"), j.get("verifier_output")))
+        print("VIOLATION property=%s replay=%s no-failing-input-found" % (PROP, path))
+        return 1
     return cc.replay(PROP, path)
